@@ -195,7 +195,7 @@ def null_cases():
     allc = list(corpora.all_cases('quick')) + sweep_cases('quick')
     for f, c in allc:
         fn = cat.CAT.get(f)
-        if fn is None or getattr(fn, 'impl', None) is not None or fn.ret != 'err' or getattr(fn, 'nondet', False) or not fn.args:
+        if fn is None or fn.ret != 'err' or getattr(fn, 'nondet', False) or not fn.args:      # fn.args: executed by cat.run (also the module wrappers)
             continue
         for spec in fn.args:
             if spec[0] in ('in', 'str', 'u16in') and c.get(spec[1]) is None:
@@ -237,6 +237,162 @@ def null_case(item):
         return 'pointer %s = NULL: the call returns %#x, the headers document ERR_BAD_INPUT' % (name, res['ret'])
     # (what a failing call leaves INSIDE its output buffers is not documented -- the *Std loaders zero the structure first -- and is not
     # judged; a write OUTSIDE an exact-size buffer is an AddressSanitizer report)
+    return None
+
+
+# ------------------------------------------------------------------ call-level NULL sweep (functions reached only through composites)
+import re as _re
+_PROTO = None
+_DOC = {}
+def prototypes():
+    """err_t functions of include/bee2/crypto/**.h -> {name: [(param name, is_pointer, declaration)]}; _DOC[name] = its doc comment
+    followed by the header's file-level statements about optional parameters"""
+    global _PROTO
+    if _PROTO is None:
+        _PROTO = {}
+        inc = os.path.join(vf.vbuild.REPO, 'include', 'bee2', 'crypto')
+        for root, _, files in os.walk(inc):
+            for f in files:
+                if not f.endswith('.h'):
+                    continue
+                raw = open(os.path.join(root, f), errors='replace').read()
+                filelevel = ' '.join(s for s in _re.split(r'(?<=[.])\s', raw) if 'необязательн' in s and '\\remark' not in s)
+                for m in _re.finditer(r'/\*!((?:(?!\*/).)*?)\*/\s*err_t\s+(\w+)\s*\(((?:(?!\)\s*;).)*)\)\s*;', raw, _re.S):
+                    doc, name, plist = m.group(1), m.group(2), m.group(3)
+                    plist = _re.sub(r'/\*.*?\*/', '', plist, flags=_re.S)
+                    ps = []
+                    for p in plist.split(','):
+                        p = ' '.join(p.split())
+                        if not p or p == 'void':
+                            continue
+                        nm = _re.findall(r'(\w+)\s*(?:\[[^\]]*\])*\s*$', p)
+                        ps.append((nm[0] if nm else '?', '*' in p or '[' in p, p))
+                    _PROTO[name] = ps
+                    _DOC[name] = doc + ' ' + filelevel
+    return _PROTO
+
+def documented_optional(fname, aname, null_now=()):
+    """does the header allow a null pointer for this argument?  [len?]ptr / [?len]ptr size queries (buffer and its length pointer), and
+    sentences that speak of a null / optional pointer and name the argument"""
+    doc = _DOC.get(fname, '')
+    if _re.search(r'\[[^\]]*\?[^\]]*\]\s*%s\b' % _re.escape(aname), doc):
+        return True
+    if _re.search(r'\[\??%s\??\]' % _re.escape(aname), doc) and '?' in ''.join(_re.findall(r'\[[^\]]*%s[^\]]*\]' % _re.escape(aname), doc)):
+        return True
+    for sent in _re.split(r'(?<=[.])\s', doc):
+        if _re.search(r'\b%s\b' % _re.escape(aname), sent) and _re.search(r'нулев|необязательн', sent):
+            m = _re.search(r'При нулев\w+ (\w+) указател', sent)      # "when <x> is null, the pointers a, b, c may be null": conditional
+            if m and m.group(1) != aname and m.group(1) not in null_now:
+                continue
+            return True
+    return False
+
+# pointer arguments that the headers declare optional, or that are not "input pointers of a high-level function" (states of the
+# step-wise protocols are low-level objects with \pre, generator / callback states are opaque to the library)
+NULL_OK = {'state', 'rng_state', 'gen_state', 'file', 'stack', 'val_state'}
+
+class _Abort(Exception):
+    pass
+
+def call_sites():
+    """one accepted composite case per reachable (library function, pointer argument): -> [(composite fname, case, call name, occurrence, arg index, arg name)]"""
+    P = prototypes()
+    best = {}
+    L = common.lib('rel')
+    cases = [(f, c) for f, c in corpora.all_cases('quick') if getattr(cat.CAT.get(f), 'impl', None) is not None and not getattr(cat.CAT[f], 'nondet', False)]
+    per = {}
+    for f, c in cases:
+        per.setdefault(f, [])
+        if len(per[f]) < 6:
+            per[f].append(c)
+    for f, cs in sorted(per.items()):
+        for c in cs:
+            calls = []
+            def rec(name, args):
+                if name in P:
+                    calls.append((name, [isinstance(a, (vf.Buf, bytes, bytearray)) for a in args], len(args), sum(a is None for a in args)))
+                return args
+            L.hook = rec
+            try:
+                res = common.run_fn(L, f, c)
+            except Exception:
+                res = None
+            finally:
+                L.hook = None
+            if not res or res.get('ret') != 0:
+                continue
+            occ = {}
+            for name, flags, n, nnull in calls:
+                k = occ[name] = occ.get(name, 0) + 1
+                proto = P[name]
+                if n != len(proto):
+                    continue
+                for i, isp in enumerate(flags):
+                    if isp and proto[i][1] and proto[i][0] not in NULL_OK:
+                        cur = best.get((name, i))
+                        if cur is None or nnull < cur[0]:       # a call with fewer null arguments is the better base (size queries pass nulls)
+                            best[(name, i)] = (nnull, (f, c, name, k, i, proto[i][0]))
+    out = [v[1] for k, v in sorted(best.items())]
+    return out
+
+def callnull_case(item):
+    f, c, cname, occ, ai, aname = item
+    L = common.lib(CFG)
+    st = {'n': 0, 'ret': None}
+    def hook(name, args):
+        if name == cname:
+            st['n'] += 1
+            if st['n'] == occ:
+                a2 = list(args); a2[ai] = None
+                st['null_now'] = [p[0] for p, a in zip(prototypes()[name], args) if a is None]
+                L.hook = None
+                st['ret'] = L.call(name, *a2) & 0xFFFFFFFF
+                raise _Abort()
+        return args
+    L.hook = hook
+    try:
+        common.run_fn(L, f, c, fill=0xC3)
+    except _Abort:
+        pass
+    finally:
+        L.hook = None
+    r = st['ret']
+    if r is None:
+        return 'HARNESS: call %d of %s was not reached on re-execution' % (occ, cname)
+    P = prototypes()
+    decl = P[cname][ai][2]
+    if documented_optional(cname, aname, st.get('null_now', ())):
+        return None                    # the header allows a null pointer here: any result is documented behaviour (a crash is still a crash)
+    ok = {109}
+    if aname == 'params':
+        ok.add(502)
+    if 'char' in decl and 'const' in decl:
+        # str.h treats NULL as the empty string: the code returned for "" is documented behaviour too
+        st2 = {'n': 0, 'ret': None}
+        def hook2(name, args):
+            if name == cname:
+                st2['n'] += 1
+                if st2['n'] == occ:
+                    a2 = list(args); a2[ai] = b''
+                    L.hook = None
+                    st2['ret'] = L.call(name, *a2) & 0xFFFFFFFF
+                    raise _Abort()
+            return args
+        L.hook = hook2
+        try:
+            common.run_fn(L, f, c, fill=0xC3)
+        except _Abort:
+            pass
+        finally:
+            L.hook = None
+        if st2['ret']:
+            ok.add(st2['ret'])
+    if ('apdu_cmd_t' in decl or 'apdu_resp_t' in decl) and 'const' in decl:
+        ok.add(0x138)                  # ERR_BAD_APDU: the class btok.h names for a command / response that is not a correct one
+    if r == 0:
+        return '%s(%s = NULL) returns ERR_OK, and the header does not allow a null pointer there' % (cname, aname)
+    if r not in ok:
+        return '%s(%s = NULL) returns %#x, the headers document ERR_BAD_INPUT for invalid input pointers' % (cname, aname, r)
     return None
 
 def sweep_case(item):
@@ -288,6 +444,18 @@ def sub(tier, what, out):
         if r:
             add('null:%s:%s' % (f, c['_null'][0]), rec, '%s: %s  [%s]' % (f, r, cat.short(c)))
     result['parts']['null_pointer_sweep'] = dict(states=len(nc), transitions=len(nc), traces_validated_against_impl=len(nc), evaluations=len(nc), functions=len(set(f for f, _ in nc)))
+    # 2c. the same one level down: every err_t function reached through a composite, each pointer argument nulled at the call itself
+    cs_ = call_sites()
+    res = vf.pmap(callnull_case, cs_, case_timeout=300)
+    for item, r in zip(cs_, res):
+        f, c, cname, occ, ai, aname = item
+        rec = {'cfg': CFG, 'kind': 'callnull', 'fn': f, 'case': cat.enc_case(c), 'call': cname, 'occ': occ, 'arg': ai, 'argname': aname}
+        if isinstance(r, dict):
+            k, m = C07.classify(r.get('stderr', '') or r.get('harness_error', '') or r.get('crash', ''))
+            add('null:%s:%s:%s' % (k, cname, aname), rec, '%s with %s = NULL (inside %s): %s' % (cname, aname, f, m)); continue
+        if r:
+            add('null:%s:%s' % (cname, aname), rec, '%s  [inside %s %s]' % (r, f, cat.short(c)))
+    result['parts']['null_pointer_sweep_call_level'] = dict(states=len(cs_), transitions=len(cs_), traces_validated_against_impl=len(cs_), evaluations=len(cs_), functions=len(set(x[2] for x in cs_)))
     # 3. no release on failed authentication
     au = auth_cases(tier)
     res = vf.pmap(auth_case, au, case_timeout=120)
@@ -348,6 +516,11 @@ def replay(rec):
         return r[0]
     if k == 'null':
         r = vf.pmap(null_case, [(rec['fn'], case)], nproc=1)[0]
+        if isinstance(r, dict):
+            return C07.classify(r.get('stderr', '') or r.get('crash', ''))[1]
+        return r
+    if k == 'callnull':
+        r = vf.pmap(callnull_case, [(rec['fn'], case, rec['call'], rec['occ'], rec['arg'], rec['argname'])], nproc=1)[0]
         if isinstance(r, dict):
             return C07.classify(r.get('stderr', '') or r.get('crash', ''))[1]
         return r
